@@ -27,6 +27,7 @@ def _strategy_marg(shapes):
         dims = draw(gen.perm_prefix(D))
         return {"D": D, "R": R, "N": N, "diag": diag, "dims": dims,
                 "p": draw(gen.measure_params("diag_pdf" if diag else "pdf", R, D, draw(st.sampled_from([10.0, 100.0])), extreme=True)),
+                "upd": draw(gen.maybe_update("diag_pdf" if diag else "pdf", R, D)),
                 "x": draw(gen.arr((N, len(dims)), -3, 3))}
     return s()
 
@@ -39,10 +40,9 @@ def _run_marg(case):
 
     fails = []
     D, R, dims = case["D"], case["R"], list(case["dims"])
-    mu, Sig = np.asarray(case["p"]["mu"], float), np.asarray(case["p"]["Sigma"], float)
     kind = "diag_pdf" if case["diag"] else "pdf"
-    ok, p = lib(fails, "construct_pdf", libx.make_measure, kind, case["p"])
-    if not ok:
+    p, mu, Sig = libx.density_with_past(fails, kind, case["p"], case.get("upd"))
+    if p is None:
         return fails
     snap = {k: np.asarray(getattr(p, k)).copy() for k in ("mu", "Sigma", "Lambda", "nu", "ln_beta")}
     ok, m = lib(fails, "get_marginal", lambda: p.get_marginal(libx.IDX(dims)))
@@ -94,7 +94,7 @@ def _nontrivial_marg(case):
 
 def _labels_marg(case):
     d = case["dims"]
-    return [f"diag={case['diag']}", "all_coords" if len(d) == case["D"] else "subset", "unsorted" if d != sorted(d) else "sorted"]
+    return [f"diag={case['diag']}", "all_coords" if len(d) == case["D"] else "subset", "unsorted" if d != sorted(d) else "sorted", "after_update" if case.get("upd") else "fresh"]
 
 
 def _strategy_lin(shapes):
@@ -112,6 +112,7 @@ def _strategy_lin(shapes):
         return {"D": D, "R": R, "N": N, "K": K, "combo": combo, "diag": diag, "W": W,
                 "b": draw(st.one_of(st.none(), gen.arr((Rw, K)))),
                 "p": draw(gen.measure_params("diag_pdf" if diag else "pdf", Rp, D, draw(st.sampled_from([10.0, 100.0])))),
+                "upd": draw(gen.maybe_update("diag_pdf" if diag else "pdf", Rp, D)),
                 "z": draw(gen.arr((N, K), -3, 3))}
     return s()
 
@@ -121,12 +122,11 @@ def _run_lin(case):
     from ..libx import J
 
     fails = []
-    mu, Sig = np.asarray(case["p"]["mu"], float), np.asarray(case["p"]["Sigma"], float)
     W = np.asarray(case["W"], float)
     b = None if case["b"] is None else np.asarray(case["b"], float)
     kind = "diag_pdf" if case["diag"] else "pdf"
-    ok, p = lib(fails, "construct_pdf", libx.make_measure, kind, case["p"])
-    if not ok:
+    p, mu, Sig = libx.density_with_past(fails, kind, case["p"], case.get("upd"))
+    if p is None:
         return fails
     bJ = None if b is None else J(b)
     b_before = None if b is None else np.asarray(bJ).copy()
